@@ -68,9 +68,14 @@ def runSummary (c : Case) : Res :=
         | some (_, ds, none) => some ds
         | _ => none
       let implSum := (c.lines.filter (fun l => l.head? == some "sumtx")).filterMap (fun l => parseTx? ("tx" :: l.drop 1))
+      -- a gain that is decimal noise around zero (|g| <= 1e-9, g != 0) flips `is_zero()` decisions
+      let noisyZero := fs.any (fun (f : ImplSec) => f.deltas.any (fun (d : ImplDelta) =>
+        (match d.gain with | some g => g != 0 && rabs g ≤ 1 / pow10 9 | none => false) ||
+        (d.post.shares != 0 && rabs d.post.shares ≤ 1 / pow10 9) ||
+        (match d.post.acb with | some a => a != 0 && rabs a ≤ 1 / pow10 9 | none => false)))
       let corr : Option String := match modelDs with
         | none => none   -- the model does not complete this history (near-threshold / noise): skip
-        | some ds => cmpSummaryTxs 0 (makeSummaryTxs yearOfJd jan1 cut annual ds) implSum
+        | some ds => if noisyZero then none else cmpSummaryTxs 0 (makeSummaryTxs yearOfJd jan1 cut annual ds) implSum
       match fs.head?, rs.head?, rerunAbort with
       | _, _, some l => { verdict := "ORACLE", tags := ["of=C10", "nt=C10"] ++ tags, msg := "feeding the summary CSV and the later rows back fails: " ++ String.intercalate " " (l.drop 1) }
       | some f, none, none =>
@@ -78,7 +83,9 @@ def runSummary (c : Case) : Res :=
         else { verdict := "ORACLE", tags := ["of=C10", "nt=C10"] ++ tags, msg := s!"re-run has no result for the security (full run has {f.deltas.length} rows)" }
       | some f, some r, none =>
         let hasSfl := f.deltas.any (fun (d : ImplDelta) => d.sfl.isSome)
-        let tags := tags ++ [s!"sfl={if hasSfl then 1 else 0}", "nt=C10"]
+        -- a summary sale that the re-run treats as a superficial loss (finding F-10c)
+        let sumSfl := r.deltas.any (fun (d : ImplDelta) => d.idx < nsum && d.act == "sell" && d.sfl.isSome)
+        let tags := tags ++ [s!"sfl={if hasSfl then 1 else 0}", s!"sumsfl={if sumSfl then 1 else 0}", "nt=C10"]
         if r.outcome ≠ "ok" then
           { verdict := "ORACLE", tags := "of=C10" :: tags, msg := s!"the summary CSV followed by the later rows is rejected: {r.msg}" }
         else
